@@ -23,6 +23,8 @@ BOUNDS = {
              "units, legacy spellings, invalid arguments; limits/default value/probe amount symbolic (all reals); one step",
     "thorough": "same plus every ordered pair of steps from the 4 small pre-states (two-step histories)",
 }
+BOUNDS_ALSO = '; also: pre-state with a category NAMED like one quantity type but registered for another; steps with legacy-spelled foreign units among valid units and with unit symbols that merely contain a legacy spelling; after an accepted unit registration the new unit must build a Scalar under every category of its quantity type'
+BOUNDS = {k_: v_ + BOUNDS_ALSO for k_, v_ in BOUNDS.items()}
 ASSUMPTIONS = ["A-FP", "reference model (3 dicts) written from the documented behaviour of AddUnit/AddUnitBase/AddCategory", "base identity is required of quantity types for which "
                "AddUnitBase was called; a type that only ever received AddUnit has no base by the caller's choice", "the discrete dimension is enumerated, stated as such"]
 CHUNK = 10
